@@ -380,6 +380,25 @@ func emitSpends(g *core.Gen, cs []caseSpec) {
 		}
 		nontrivial := len(c.sp.tx.TxIn[c.sp.idx].SignatureScript)+len(c.sp.spent[c.sp.idx].PkScript) > 0
 		emit(g, c.class, nontrivial, fmt.Sprintf("C06 %s %s %s", runOp, bases[i], oracles[i]))
+		// other ways of driving the exported API on the same input
+		if c.whole {
+			skip := false
+			for _, in := range c.sp.tx.TxIn {
+				if in.PreviousOutPoint.Index == ^uint32(0) {
+					skip = true // ValidateTransactionScripts treats such inputs as coinbase inputs
+				}
+			}
+			if !skip {
+				emit(g, "api:validate-tx", nontrivial, fmt.Sprintf("C06 valtx %s %s", bases[i], oracles[i]))
+			}
+		} else {
+			if i%8 == 0 {
+				emit(g, "api:variant", nontrivial, fmt.Sprintf("C06 runv %d %s %s", (i/8)%nVariants, bases[i], oracles[i]))
+			}
+			if i%48 == 5 {
+				emit(g, "api:parallel", nontrivial, fmt.Sprintf("C06 par %s %s", bases[i], oracles[i]))
+			}
+		}
 		if c.expected != "" {
 			emit(g, c.class+":core", nontrivial, fmt.Sprintf("C06 %s %s %s %s", coreOp, c.expected, bases[i], oracles[i]))
 		}
